@@ -88,6 +88,15 @@ def rule_aborted_filter(ctx):
     ctx.ob(R, fi, skip, ok, "records of an aborted producer's transactional batch can still be yielded", text="skip-skips")
     ok = bool(tx) and all(y in c.reachable([m for m, l in t.succ if l == "F"], avoid=[wl], include_src=True) for t in tx)
     ctx.ob(R, fi, skip, ok, "non-transactional batches of an aborted producer id would be dropped", text="non-txn-kept")
+    # the skip arm is entered only with BOTH facts established (a transactional batch AND its producer currently aborted): every other
+    # batch of the partition is visible under read_committed
+    from ..rulekit import must_facts
+    mf = must_facts(c)
+    arm = [m for m, l in skip.succ if l == "T"]
+    need = {("next_batch.is_transactional", "truthy", ""), ("next_batch.producer_id", "in", "self._aborted_producers")}
+    ok = bool(arm) and all(need <= mf[m] for m in arm)
+    ctx.ob(R, fi, skip, ok, f"the skip arm can be entered without `transactional batch AND producer aborted` both holding (facts there: {sorted(mf[arm[0]]) if arm else []}): "
+                            "committed or non-transactional records are filtered out", text="skip-needs-both")
     ctx.ob(R, fi, skip, under_level(skip), "aborted filter applies outside READ_COMMITTED", text="skip-under-level")
     # READ_UNCOMMITTED: straight to the control test
     for lvl in lvls:
